@@ -444,4 +444,14 @@ def query (env : Env) (s : Str) : Except QErr Value :=
       | .ok v => .ok v
       | .error x => .error (.eval x)
 
+/-- `query` over the reviewed expression grammar -/
+def queryRef (env : Env) (s : Str) : Except QErr Value :=
+  match parseExprRef s with
+  | .error .syntax => .error .syntax
+  | .error .remain => .error .remain
+  | .error .fuel => .error .fuel
+  | .ok e => match eval env e ⟨[], 0, 0⟩ with
+      | .ok v => .ok v
+      | .error x => .error (.eval x)
+
 end XmlRs.XPath
